@@ -412,6 +412,11 @@ impl Connection {
     }
 }
 
+#[cfg(amiquip_verif)]
+pub(crate) fn verif_decode_url(url: &str) -> Result<crate::verif::DecodedUrl> {
+    self::amqp_url::verif_decode(url)
+}
+
 mod amqp_url {
     use super::*;
     use crate::{Auth, Error};
@@ -505,6 +510,19 @@ mod amqp_url {
         }
         let last_err = last_err.unwrap_or(Error::UrlNoSocketAddrs { url });
         Err(last_err)
+    }
+
+    #[cfg(amiquip_verif)]
+    pub(super) fn verif_decode(url: &str) -> Result<crate::verif::DecodedUrl> {
+        let mut url = Url::parse(url).context(UrlParseSnafu)?;
+        let scheme = populate_host_and_port(&mut url)?;
+        let options = decode(&url)?;
+        Ok(crate::verif::decoded(
+            scheme == Scheme::Amqps,
+            url.host_str().map(str::to_string),
+            url.port(),
+            options,
+        ))
     }
 
     #[derive(Debug, PartialEq)]
